@@ -5,6 +5,7 @@
 //   B <use_hidden> <s> <spos> <t> <tpos> <hexlimit|-> <k signed ids> <k hidden ids> <graph>
 #include "mcb_common.hpp"
 #include <parmcb/parmcb_sva_signed.hpp>
+#include <parmcb/parmcb_sva_signed_tbb.hpp>
 #include <parmcb/parmcb_sva_trees.hpp>
 
 static double parse_hex(const std::string &s) {
@@ -37,6 +38,9 @@ static void run_alg(const std::string &alg, Toks &t, std::ostream &out) {
     if (alg == "signed") ret = parmcb::mcb_sva_signed(c.g, wm, std::back_inserter(cycles));
     else if (alg == "fvs") ret = parmcb::mcb_sva_fvs_trees(c.g, wm, std::back_inserter(cycles));
     else if (alg == "iso") ret = parmcb::mcb_sva_iso_trees(c.g, wm, std::back_inserter(cycles));
+    else if (alg == "signed_tbb") ret = parmcb::mcb_sva_signed_tbb(c.g, wm, std::back_inserter(cycles));       // real oneTBB, default arena
+    else if (alg == "fvs_tbb") ret = parmcb::mcb_sva_fvs_trees_tbb(c.g, wm, std::back_inserter(cycles));
+    else if (alg == "iso_tbb") ret = parmcb::mcb_sva_iso_trees_tbb(c.g, wm, std::back_inserter(cycles));
     else throw std::runtime_error("bad alg");
     out << " RET " << hex(ret);
     print_cycles(out, c, cycles);
